@@ -78,7 +78,10 @@ Section Base32.
     let s1 := add_padding s in
     s2 <- match custom with
           | None => Ok s1
-          | Some c => translate c alphabet s1
+          | Some c =>
+              (* any(ch not in custom_alphabet and ch != PADDING_CHAR for ch in data_dec) -> ValueError *)
+              if existsb (fun ch => negb (memb ch c) && negb (list_eqb [ch] pad_str)) s1 then Err ValueError
+              else translate c alphabet s1
           end ;;
     b32decode s2.
 End Base32.
